@@ -437,3 +437,48 @@ prop("C20", "c20",
            "and environment loading (the real loader incl. schema validation and the real mechanism catalogue); bounded exploration.",
      note="Trusted: gopkg.in/yaml.v3 for writing the file and the environment values.",
      technique="property-based testing: grammar-generated configurations, differential file vs environment vs split")
+
+
+# What the rounds of independently seeded changes (seeded/, DESIGN.md section 11) added to the generators and oracles; the
+# texts above describe the checks as they were designed.
+ADDED = {
+    "C01": "Also generated: the level heimdall logs on (disabled, trace, debug, info, error); verbose error answers with Accept headers.",
+    "C02": "Also: literal segments which are nothing but an escaped character (\\:, \\*, **, :*), literal backslash segments (tree level), a bare * as free "
+           "wildcard; rules with scheme, host and methods conditions at once and path_params per route; a third repository which arrives at every rule set "
+           "through an update; rules of one rule set sharing an expression with different backtracking settings (then repositories are only compared with "
+           "each other); a refused rule set before the lookups.",
+    "C03": "Also: method lists which leave no method (must be refused or match nothing), sub-delims and marker-like texts as segments, encoded slashes in "
+           "both hex cases within one value, the bare * wildcard (not exposed).",
+    "C04": "Also: jwt / oauth2_introspection authenticators with an issuer-templated metadata endpoint, tokens without issuer or key id, credentials with white "
+           "space inside, algorithm confusion tokens, the scheme in other cases.",
+    "C05": "Also: scope matching strategies with near-miss scopes, issuer-templated key set endpoints, issuers which read almost like a trusted one, nbf / "
+           "iat / exp beyond what 64 bit seconds or time.Time represent; the reference verifies over the canonical encoding of header and payload.",
+    "C06": "Also: a concurrent unit - the histories of three sources with disjoint expressions applied at the same time must end like a fresh load.",
+    "C08": "Also: combined escapes, characters Go re-escapes ({ | ^) and raw bytes beyond ASCII, mixed settings with path_params, a second encoded slash in "
+           "the other hex case.",
+    "C09": "Also: extension methods, request-target forms of X-Forwarded-Uri, scoped IPv6 peers with link-local trusted entries, Forwarded elements without "
+           "for / with For / on two lines, an empty first header line, a Host header with ; , = (nothing but the peer may be named as client address upstream).",
+    "C10": "Also: rule-level TTLs across rules (what a rule takes from the cache is not older than its own TTL), token lifetimes of zero and less, invalid "
+           "Expires values, custom claims naming exp.",
+    "C11": "Also: the endpoint-level HTTP cache (POST, and GET with Vary), name lists shifted against the payload, overridden names of forwarded headers / "
+           "cookies, outputs of earlier steps in endpoint templates and in jwt claims (token reuse), a second catalogue entry validating the session lifetime, a key "
+           "store replaced under the same key id between the executions, jwt authenticators with different trust stores.",
+    "C12": "Also: panicking mechanisms, more foreign causes (context.Canceled, url.Error wrapping it, net / os errors, JSON syntax error, gRPC status).",
+    "C13": "Also: the check request as Envoy's API describes it (request target incl. query as path, pseudo headers), the decision service asked the way a gateway "
+           "does (X-Forwarded-* from a trusted proxy), extension methods, chunked bodies, duplicate / quoted cookies, content type spellings, raw path and URL "
+           "string and Host header in the view, empty-valued and odd pipeline headers / cookies, characters not valid in an escaped path.",
+    "C14": "Also: generated on_error pipelines with repeated handlers and overrides, overrides which are not a mapping.",
+    "C15": "Also: allow_encoded_slashes on (listed finding), add_path_prefix with characters not valid in a path, extension and mixed-case methods, IPv6 peers in "
+           "Forwarded (RFC 7239 form), unparsable queries, an empty pipeline header.",
+    "C16": "Also: every signer of a multi-signer setup, tokens handed out after reloads, a token cache with a rule using the finalizer as in the catalogue, empty subject ids.",
+    "C18": "Also: the real inotify watcher following one file (rewrites, atomic replacements, ConfigMap layout, removal and re-creation), an S3 compatible server for "
+           "the documented single-object URL, an object replaced between the requests of one poll, content type spellings, empty content as line break / comments, "
+           "Kubernetes tombstones / status values / re-created objects, per-object independence in buckets.",
+    "C19": "Also: rule sets with references to the environment (shell parameter expansion forms), a rule set file vanishing while it is read (named pipe), malformed "
+           "objects of a bucket, key stores with usable keys followed by an unusable one, P-521 keys, encrypted keys with DER-aware edits, cyclic issuers, the token "
+           "issued after a reload attempt must verify with the published key set, which is unchanged after a refused reload; native fuzz targets.",
+    "C20": "Also: relative redirect targets, YAML-lookalike strings, a conflicting assignment by a variable which is set and empty.",
+}
+
+for _pid, _txt in ADDED.items():
+    PROPS[_pid]["rule"] += " " + _txt
